@@ -1,6 +1,8 @@
 import AllfedModel.Model.Certificate
 import AllfedModel.Model.Report
 import AllfedModel.Proofs.Certificate
+import AllfedModel.Model.AllocSpec
+import AllfedModel.Proofs.Completeness
 /-!
 # C02 — percent fed is the true optimum of the allocation problem
 
@@ -9,11 +11,13 @@ what the allocation really feeds in its worst month / the weighted feed-and-biof
 certificate checker that turns any vector of row multipliers into a valid upper bound of the
 objective.  What is certified per instance (by the check, in exact rational arithmetic with this
 checker): the value CBC reported is within 10⁻⁴ of that upper bound.
-Stated, not yet proved (kept visible): completeness — every physically feasible allocation
-(`PhysSpec.physCore` + intake caps) is the image of a feasible point of `buildLP`.
+Completeness (human-maximising rounds): the feasible points of `buildLP` are exactly the physically
+feasible allocations of `Model/AllocSpec.lean` (`PhysFeasible`, written from the supplies and the
+decision quantities only), and the objective values the LP can reach are exactly the numbers between
+0 and the worst-month percentage of such an allocation — so the LP's optimum is the true optimum.
 -/
 namespace Allfed.C02
-open Allfed.LP Allfed.AllocLP Allfed.Certificate Allfed.PhysSpec
+open Allfed.LP Allfed.AllocLP Allfed.Certificate Allfed.PhysSpec Allfed.AllocSpec Allfed.Report
 
 variable {K : Type} [Field K] [LinearOrder K] [IsStrictOrderedRing K]
 
@@ -68,5 +72,57 @@ example : dualBound
     ([⟨"cap", Aff.var (.mv .scpHumans 0), .le, Aff.k (5 : ℚ)⟩,
       ⟨"obj", Aff.var .objective, .le, Aff.var (.mv .scpHumans 0)⟩] : List (Row ℚ))
     [1, 1] (fun _ => none) = some 5 := by decide +kernel
+
+/-! ## completeness: the LP says exactly what is physically possible (human-maximising rounds)
+
+`Alloc` holds the decision quantities only (per month: stored food, crops, SCP, sugar, seaweed to
+people / feed / biofuel, meat eaten, seaweed biomass and farm area); `PhysFeasible i a` is written
+from the supplies: non-negativity; cumulative stored-food use within the stock (used up by the
+last month with storage between years; nothing drawn after month 12 without); cumulative crop use
+within the harvest so far and equal to it at the end; meat within total and running slaughter
+(storage) or the month's slaughter (no storage); SCP and sugar within monthly output; the seaweed
+bounds and ledger; feed and biofuel equal to the charge; percent fed non-negative; the intake caps.
+`pct i a m` is the percent of the monthly need people are given in month `m`.
+Hypotheses of the completeness direction: wastes of stored food, crops and meat below 100 %
+(otherwise the gross-up `1/(1 − w/100)` is not positive and the LP's sign constraints on
+`Crops_Food_Consumed`, `Stored_Food_Start_0`, `Meat_Start_0` are no longer physical ones). -/
+
+/-- soundness: the allocation inside a feasible point is physically feasible and the objective is
+    at most its worst month -/
+theorem sound_humans (i : Inp K) (x : Var → K) (hN : 2 ≤ i.nmonths)
+    (h : Feasible (buildLP i .toHumans) x) :
+    PhysFeasible i (allocOf x) ∧ x .objective ≤ minOver (pct i (allocOf x)) i.nmonths :=
+  Proofs.Completeness.sound_humans i x hN h
+
+/-- completeness: every physically feasible allocation is the allocation of a feasible point of the
+    LP whose objective is the allocation's worst month -/
+theorem complete_humans (i : Inp K) (a : Alloc K) (hN : 2 ≤ i.nmonths)
+    (hw : i.wStored < 100 ∧ i.wCrop < 100 ∧ i.wMeat < 100) (ha : PhysFeasible i a) :
+    ∃ x, Feasible (buildLP i .toHumans) x ∧ allocOf x = a ∧
+      x .objective = minOver (pct i a) i.nmonths :=
+  Proofs.Completeness.complete_humans i a hN hw ha
+
+/-- the objective values the LP can achieve are exactly the numbers between 0 and the worst month
+    of a physically feasible allocation -/
+theorem lp_optimum_is_true_optimum (i : Inp K) (hN : 2 ≤ i.nmonths)
+    (hw : i.wStored < 100 ∧ i.wCrop < 100 ∧ i.wMeat < 100) (z : K) :
+    (∃ x, Feasible (buildLP i .toHumans) x ∧ x .objective = z) ↔
+    (∃ a, PhysFeasible i a ∧ 0 ≤ z ∧ z ≤ minOver (pct i a) i.nmonths) :=
+  Proofs.Completeness.lp_optimum_is_true_optimum i hN hw z
+
+/-- hence a certified bound of the LP's objective (`certificate_sound`) bounds the percent fed of
+    every physically feasible allocation, and conversely -/
+theorem lp_bound_iff_true_bound (i : Inp K) (hN : 2 ≤ i.nmonths)
+    (hw : i.wStored < 100 ∧ i.wCrop < 100 ∧ i.wMeat < 100) (b : K) :
+    (∀ x, Feasible (buildLP i .toHumans) x → x .objective ≤ b) ↔
+    (∀ a, PhysFeasible i a → minOver (pct i a) i.nmonths ≤ b) :=
+  Proofs.Completeness.lp_bound_iff_true_bound i hN hw b
+
+/-- non-vacuity: a physically feasible allocation exists for a non-trivial instance (3 months,
+    stored food + crops + meat) and its worst month is positive -/
+example : ∃ (i : Inp ℚ) (a : Alloc ℚ), 2 ≤ i.nmonths ∧ PhysFeasible i a ∧ 0 < minOver (pct i a) i.nmonths := by
+  obtain ⟨i, x, hN, -, -, -, hx, hpos⟩ := Proofs.LP.feasible_nonvacuous
+  obtain ⟨h1, h2⟩ := sound_humans i x hN hx
+  exact ⟨i, allocOf x, hN, h1, lt_of_lt_of_le hpos h2⟩
 
 end Allfed.C02
